@@ -67,6 +67,8 @@ func checkC18(c *fw.Ctx) {
 	checkF5(c)
 	checkF6(c)
 	checkF7(c)
+	// a v12 event must stay a v12 event: an eventV2 copy of it panics in RoomID() (shared with C03.9)
+	checkDerivedTypePreserved(c)
 }
 
 func checkF2(c *fw.Ctx) {
